@@ -335,7 +335,15 @@ func (w *clientWorld) generate() {
 		w.bodyBytes = []byte("payload-" + strconv.Itoa(ch.Intn(1000, "payload")))
 		if w.bodyKind == 4 {
 			w.failGetAt = ch.Range(1, 3, "GetBody fails at")
-			w.getBodyErr = newInjected("GetBody")
+			// GetBody's own error ends Connect, whatever kind of error it is
+			switch ch.Weighted([]int{3, 1, 1}, "GetBody error kind") {
+			case 0:
+				w.getBodyErr = newInjected("GetBody")
+			case 1:
+				w.getBodyErr = &timeoutLikeError{what: "GetBody"}
+			case 2:
+				w.getBodyErr = newInjectedAs("GetBody", disguises[ch.Intn(len(disguises), "GetBody error sentinel")])
+			}
 		}
 	}
 	if prop != "C13" {
@@ -1203,7 +1211,13 @@ func (w *clientWorld) afterObserver(ch *Chooser) {
 			for i := 0; i < 5 && ch.Chance(3, 4, "more subscription ops"); i++ {
 				k := ch.Range(0, 12, "wait for events")
 				w.sim.WaitWeak("subscriber waits", func() bool { return w.dispatched >= k || w.connectReturned != 0 })
-				switch ch.Weighted([]int{4, 3, 1, 1}, "subscription op") {
+				switch ch.Weighted([]int{4, 3, 1, 1, 2}, "subscription op") {
+				case 4: // a short-lived subscription: subscribed and removed again at once, whatever is going on meanwhile
+					ty := pickType("callback type")
+					cb := w.newCB(ty, ty == allTypes)
+					w.subscribe(cb)
+					w.remove(cb)
+					w.o.probe("callback subscribed and removed at once")
 				case 0:
 					ty := pickType("callback type")
 					cb := w.newCB(ty, ty == allTypes)
@@ -1346,6 +1360,15 @@ func (w *clientWorld) evaluate(res verifhook.Result, bubblePanic string) {
 		})
 	}
 	w.checkC13()
+	if w.rc.Prop == "C11" {
+		// the Read half of C11: the same bytes through sse.Read, ended in a drawn way
+		for _, a := range w.attempts {
+			if a.kind == attStream && len(a.stream) > 0 {
+				checkReadErrorIdentity(o, w.ch, a.stream)
+				break
+			}
+		}
+	}
 	w.clientProbes()
 }
 
